@@ -683,3 +683,40 @@ func replaceToken(s, name, val string) string {
 	}
 	return b.String()
 }
+
+
+// runReplayFile re-decides the obligation recorded in a replay file on the current tree: the property's
+// check is run for the function the obligation belongs to; exit 1 (with the VIOLATION line) if that
+// obligation is still violated, 0 if it is discharged now.
+func runReplayFile(prop, file string) int {
+	b, err := os.ReadFile(file)
+	if err != nil {
+		fmt.Println("cannot read replay file:", err)
+		return 2
+	}
+	var m map[string]interface{}
+	if json.Unmarshal(b, &m) != nil {
+		fmt.Println("replay file is not JSON")
+		return 2
+	}
+	name, _ := m["obligation"].(string)
+	fn := name
+	if i := strings.Index(name, "#"); i >= 0 {
+		fn = name[:i]
+	}
+	fmt.Printf("replaying obligation %s (function %s)\n", name, fn)
+	if src, ok := m["replay_test"].(string); ok && src != "" {
+		fmt.Println("recorded test (re-generated and re-run by the check below):")
+		fmt.Println(src)
+	}
+	verif := os.Getenv("VERIF_DIR")
+	if verif == "" {
+		verif = "/verif"
+	}
+	repo := os.Getenv("VERIF_REPO")
+	if repo == "" {
+		repo = "/repo"
+	}
+	rc := runCheck(prop, "quick", repo, verif, fn, false)
+	return rc
+}
